@@ -112,8 +112,9 @@ def reach_name_rule(s: str, mode: bool) -> int:
     return name_rule_check(s, mode)
 
 
-NAME_EXAMPLES = ['OK-1_A', 'lower', 'SP ACE', 'DOT.', '', 'Z']
-NAME_VALID = [True, False, False, False, False, True]
+NAME_EXAMPLES = ['OK-1_A', 'lower', 'SP ACE', 'DOT.', '', 'Z', 'NL\n', '\nNL', 'TAB\t', 'A\x00']
+NAME_VALID = [True, False, False, False, False, True, False, False, False, False]
+N_NAMES = len(NAME_EXAMPLES)
 
 
 def name_sites_check(site, ei, mode):
@@ -141,7 +142,7 @@ def name_sites_check(site, ei, mode):
 
 def ob_name_sites(site: int, ei: int, mode: bool) -> int:
     """
-    pre: 0 <= site <= 2 and 0 <= ei < 6
+    pre: 0 <= site <= 2 and 0 <= ei < N_NAMES
     post: _ == 0
     """
     return name_sites_check(site, ei, mode)
@@ -149,7 +150,7 @@ def ob_name_sites(site: int, ei: int, mode: bool) -> int:
 
 def reach_name_sites(site: int, ei: int, mode: bool) -> int:
     """
-    pre: 0 <= site <= 2 and 0 <= ei < 6
+    pre: 0 <= site <= 2 and 0 <= ei < N_NAMES
     post: _ != 0
     """
     return name_sites_check(site, ei, mode)
